@@ -72,6 +72,7 @@ package ring
 //@   ensures forall i :: 0 <= i && i < old(cnt(rb)) ==> at(rb, i) == old(at(rb, i))
 //@   ensures forall j :: 0 <= j && j < len(p) ==> at(rb, old(cnt(rb)) + j) == p[j]
 //@   ensures rb.size >= old(rb.size)
+//@   ensures same(rb.buf, old(rb.buf)) || fresh(rb.buf)
 //
 //@ func (rb *Buffer) WriteByte(c byte) (err error)
 //@   requires wf(rb)
@@ -139,9 +140,10 @@ package ring
 //@   requires wf(rb) && r != nil
 //@   modifies rb.*, mem(rb.buf), rpos[ref(r)]
 //@   ensures wf(rb)
-//@   ensures n == rpos[ref(r)] - old(rpos[ref(r)]) && cnt(rb) == old(cnt(rb)) + n
+//@   ensures n >= 0 && n == rpos[ref(r)] - old(rpos[ref(r)]) && cnt(rb) == old(cnt(rb)) + n
 //@   ensures forall i :: 0 <= i && i < old(cnt(rb)) ==> at(rb, i) == old(at(rb, i))
 //@   ensures forall j :: 0 <= j && j < n ==> at(rb, old(cnt(rb)) + j) == rdata[ref(r)][old(rpos[ref(r)]) + j]
+//@   ensures same(rb.buf, old(rb.buf)) || fresh(rb.buf)
 //@   loop 1:
 //@     invariant wf(rb) && n >= 0 && (same(rb.buf, old(rb.buf)) || fresh(rb.buf))
 //@     invariant n == rpos[ref(r)] - old(rpos[ref(r)]) && cnt(rb) == old(cnt(rb)) + n
@@ -150,11 +152,14 @@ package ring
 //
 //@ func (rb *Buffer) WriteTo(w io.Writer) (n int64, err error)
 //@   requires wf(rb) && w != nil
-//@   modifies rb.r, rb.w, rb.isEmpty, wpos[ref(w)], wdata[ref(w)]
+//@   modifies rb.r, rb.w, rb.isEmpty, wpos[ref(w)], wdata[ref(w)], wfail[ref(w)]
 //@   ensures wf(rb)
 //@   ensures n == wpos[ref(w)] - old(wpos[ref(w)]) && 0 <= n && n <= old(cnt(rb))
 //@   ensures cnt(rb) == old(cnt(rb)) - n
 //@   ensures forall i :: 0 <= i && i < cnt(rb) ==> at(rb, i) == old(at(rb, n + i))
 //@   ensures forall i :: 0 <= i && i < n ==> wdata[ref(w)][old(wpos[ref(w)]) + i] == old(at(rb, i))
-//@   ensures old(cnt(rb)) == 0 ==> err == ErrIsEmpty
+//@   ensures old(cnt(rb)) == 0 ==> err == ErrIsEmpty && (wfail[ref(w)] <==> old(wfail[ref(w)]))
+//@   ensures forall i :: i < old(wpos[ref(w)]) ==> wdata[ref(w)][i] == old(wdata[ref(w)])[i]
+//@   ensures old(cnt(rb)) > 0 && !wfail[ref(w)] ==> err == nil && n == old(cnt(rb))
+//@   ensures old(wfail[ref(w)]) ==> wfail[ref(w)]
 //@   ensures err == nil ==> n == old(cnt(rb))
